@@ -43,9 +43,18 @@ QWIRINGS = {
     "owned-pair": ([], ["o", "y1", "y2"], [], ["y1", "y2", "w1", "w2", "w3"], ["w1"]),
     # the divisor owns both dividend outputs and bounds a *different* weighted sum of them (tactic 3's ratio)
     "owned-both": (["i"], ["v1", "v2"], ["z"], ["v1", "v2"], []),
+    # a divisor that shares nothing with the dividend: whether "C's assumptions refine C1's" must not be answered with
+    # the help of C1's own guarantees
+    "disjoint": (["i"], ["y"], ["j"], ["x"], ["i", "x"]),
 }
 
 CURATED = [
+    (
+        "circular-divisor",
+        "disjoint",
+        {"in": ["i"], "out": ["y"], "a": [{"i": 1}], "g": [{"y": 1, "i": -1}]},
+        {"in": ["j"], "out": ["x"], "a": [{"j": 1}], "g": [{"j": 1, "x": -1}, {"x": 1}]},
+    ),
     (
         "three-shared-inputs",
         "three-shared-inputs",
@@ -118,7 +127,7 @@ def jobs(tier, seed):
                     if tier == "quick" and rng.random() < 0.4:
                         continue
                     out.append({"kind": "curated:" + name, "wiring": w, "c": c, "c1": c1, "add": add, "simplify": simp, "tactics": tac})
-    n_rand = 180 if tier == "quick" else 2800
+    n_rand = 200 if tier == "quick" else 3000
     alphabet = BOUNDS[tier]["alphabet"]
     ws = list(QWIRINGS)
     for i in range(n_rand):
@@ -145,6 +154,9 @@ def jobs(tier, seed):
             if rng.random() < 0.5:
                 rng.shuffle(g1)
             c1 = {"in": [], "out": do, "a": [], "g": g1}
+        if w == "disjoint" and rng.random() < 0.6:
+            sg = rng.choice([1, -1])
+            c1 = {"in": di, "out": do, "a": [{"j": sg}], "g": [{"j": sg, "x": -sg}, {"x": sg}] + ([{"x": -sg, "j": sg * 2}] if rng.random() < 0.3 else [])}
         if w == "owned-both":
             sg = rng.choice([1, -1])
             a1, a2, b1, b2 = (rng.choice([1, 2, 3]) for _ in range(4))
